@@ -345,6 +345,8 @@ def watch_terms(ev, env, ghosts, maxlist=8):
 def verify_contract(contract: Contract, registry: Registry, timeout_ms=30000, log=None, refute=None, only=None):
     """returns dict(results=[ObResult...], paths=int, undecided_paths=[reasons], sha=...)"""
     t_start = time.time()
+    if contract.lemmas:
+        return verify_lemmas(contract, registry, timeout_ms)
     fdef = source.find_def(contract.file, contract.qualname)
     sha = source.source_sha(contract.file, fdef)
     results = {}
@@ -621,6 +623,56 @@ def verify_contract(contract: Contract, registry: Registry, timeout_ms=30000, lo
         "mode": "prove" if refute is None else "refute(bound=%d,unroll=%d)" % (refute.get("bound", 2), refute.get("unroll", 4)),
     }
     return out
+
+
+def verify_lemmas(contract, registry, timeout_ms):
+    """a contract without a body: named lemmas over constants read from the real source (e.g. the convertor
+    regexes) or over other contracts.  Each lemma is a callable(ev) -> z3 Bool, discharged like any obligation."""
+    import hashlib
+    t0 = time.time()
+    m = source.module(contract.file)
+    sha = hashlib.sha256(m.src.encode()).hexdigest()
+    results = []
+    solver_ms = 0.0
+    undecided = []
+    for name, fn in contract.lemmas.items():
+        res = ObResult("%s/lemma.%s" % (contract.id, name), "obligation")
+        run = Run([], None)
+        st = State(run)
+        st.old_ghost = {}
+        frame = Frame(contract, contract.file, contract.cls, {})
+        ev = Ev(st, frame, registry)
+        try:
+            goal = fn(ev)
+            note = getattr(fn, "note", "")
+            res.note = note
+            s_ = _mk_solver(st.pc, z3.Not(goal), timeout_ms)
+            t1 = time.time()
+            r = str(s_.check())
+            if r == "unknown":
+                fr, be = _fallback(s_, max(5, timeout_ms // 2000))
+                if fr:
+                    r, res.backend = fr, be
+            res.ms = (time.time() - t1) * 1000
+            solver_ms += res.ms
+            res.instances = 1
+            txt = s_.to_smt2()
+            res.smt_size, res.smt_head = len(txt), "\n".join(txt.split("\n")[-6:])[:600]
+            if r == "unsat":
+                res.status = "discharged"
+            elif r == "sat":
+                res.status = "refuted"
+                wt = getattr(fn, "watch", None)
+                res.model = _model_values(s_.model(), wt(ev) if wt else {})
+            else:
+                res.status, res.reason = "undecided", "solver: unknown"
+        except Unsupported as u:
+            res.status, res.reason = "undecided", str(u)
+            undecided.append(str(u))
+        results.append(res.to_json())
+    return {"contract": contract.id, "file": contract.file, "qualname": contract.qualname, "sha256": sha, "paths": len(results),
+            "undecided_paths": undecided, "results": results, "solver_ms": solver_ms, "wall_s": time.time() - t0,
+            "outcomes": {"normal": len(results), "raise": {}}, "mode": "lemmas"}
 
 
 def frame_obligations(ev, contract, old_env):
